@@ -55,11 +55,19 @@ type client struct {
 	watchdog   bool // a read ran into replyWatchdog
 }
 
-func dialClient(addr string) (*client, error) {
+func dialClient(addr string) (*client, error) { return dialClientFrom(addr, "") }
+
+// dialClientFrom connects from the given loopback address ("" = the kernel's
+// choice, 127.0.0.1): the endpoint sees it as the client IP (limits scope "ip").
+func dialClientFrom(addr, localIP string) (*client, error) {
 	var c net.Conn
 	var err error
+	d := net.Dialer{Timeout: 20 * time.Second}
+	if localIP != "" {
+		d.LocalAddr = &net.TCPAddr{IP: net.ParseIP(localIP)}
+	}
 	for try := 0; try < 100; try++ {
-		c, err = net.DialTimeout("tcp", addr, 20*time.Second)
+		c, err = d.Dial("tcp", addr)
 		if err == nil || !(strings.Contains(err.Error(), "address already in use") || strings.Contains(err.Error(), "cannot assign requested address")) {
 			break
 		}
